@@ -73,7 +73,7 @@ def build_and_run(si, pairs, pows, units, flavour, nrandom, dropped):
     src = os.path.join(d, f"s{si}.cc")
     exe = os.path.join(d, f"s{si}.exe")
     pairs, pows = list(pairs), list(pows)
-    for attempt in range(3):
+    for attempt in range(12):
         core.write(src, emit_tu(pairs, pows, units))
         rc, se = core.build(src, exe, flavour)
         if rc == 0:
